@@ -71,11 +71,19 @@ def _where(tb):
     return where
 
 
+_yaml_cache = {}
+
+
 def default_settings_dict():
+    import copy
     import yaml
     cminx()
-    with open(os.path.join(repo_root(), "src", "cminx", "config_default.yaml")) as f:
-        y = yaml.safe_load(f)
+    path = os.path.join(repo_root(), "src", "cminx", "config_default.yaml")
+    key = (path, os.stat(path).st_mtime_ns)
+    if key not in _yaml_cache:
+        with open(path) as f:
+            _yaml_cache[key] = yaml.safe_load(f)
+    y = copy.deepcopy(_yaml_cache[key])
     inp = dict(y["input"])
     inp.setdefault("exclude_filters", [])
     out = dict(y.get("output") or {})
